@@ -372,4 +372,181 @@ theorem extend_spec (t : Tbl) (d1 : Disk) (hi : Inv t d1) (c n : Nat) (st : Stor
     have : (c ≤ j ∧ j < c + (n - c)) ↔ (c ≤ j ∧ j < n) := by omega
     simp [this]
 
+/-- the folder after a completed run -/
+structure Valid (t : Tbl) (vv : VV) (g : Gen) (n : Nat) (d : Disk) : Prop where
+  seeds : ∃ m, d.seeds = .ok m ∧ n ≤ m
+  hashes : ∃ st, d.hashes = .ok st ∧ hashesMatch t st vv = true
+  infra : d.infra = .ok g
+  count : ∃ c, d.count = .ok c ∧ n ≤ c ∧ ∀ i, i < c → d.emis i = .ok g
+  ts : d.ts = .ok ()
+  cur : g.vv = vv
+
+/-- what the infrastructure + emission stages establish, started on folder `d1` -/
+def MidPost (t : Tbl) (vv : VV) (n : Nat) (d1 : Disk) (l : List Step) (mem : Gen) : Prop :=
+  ChainOk t d1 l ∧
+  (applyAll l d1).seeds = d1.seeds ∧
+  (applyAll l d1).ts = d1.ts ∧
+  (∃ st, (applyAll l d1).hashes = .ok st ∧ hashesMatch t st vv = true) ∧
+  (applyAll l d1).infra = .ok mem ∧
+  (∃ c, (applyAll l d1).count = .ok c ∧ n ≤ c ∧ ∀ i, i < c → (applyAll l d1).emis i = .ok mem) ∧
+  mem.vv = vv
+
+theorem mid_spec (t : Tbl) (ok : TblOK t) (vv : VV) (gid n : Nat) (force : Bool) (d : Disk)
+    (x : FileSt Nat) (hi : Inv t d) (s2 : List Step) (mem : Gen) (hfe : Bool) (s3 : List Step)
+    (h2 : infraStage t vv gid force d = some (s2, mem, hfe))
+    (h3 : emisStage t n hfe mem d = some s3) :
+    MidPost t vv n { d with seeds := x } (s2 ++ s3) mem := by
+  have regen : ∀ (hashed : List (String × Input)) (ops : List IOp), hashed = t.hashedFresh →
+      ops = safeIOps → s2 = instIOps ops (storeOf hashed vv) ⟨vv, gid⟩ d → mem = ⟨vv, gid⟩ →
+      hfe = false → MidPost t vv n { d with seeds := x } (s2 ++ s3) mem := by
+    intro hashed ops e1 e2 e3 e4 e5
+    subst e1 e2 e3 e4 e5
+    simp only [emisStage, Bool.false_eq_true, if_false, Option.some.injEq] at h3
+    subst h3
+    rw [ok.emisRegen, instIOps_safe, instPhases_safe]
+    obtain ⟨c1, c2⟩ := regen_spec t ok vv gid n { d with seeds := x } d.count.present rfl
+    simp only [Nat.sub_zero]
+    refine ⟨c1, ?_⟩
+    rw [c2]
+    refine ⟨rfl, rfl, ⟨_, rfl, match_self t ok vv⟩, rfl, ⟨n, rfl, Nat.le_refl _, ?_⟩, rfl⟩
+    intro i hi
+    simp [hi]
+  unfold infraStage at h2
+  split at h2
+  · simp only [Option.some.injEq, Prod.mk.injEq] at h2
+    exact regen _ _ rfl ok.freshOps h2.1.symm h2.2.1.symm h2.2.2.symm
+  · rename_i hreq
+    split at h2
+    · rename_i st hst
+      split at h2
+      · rename_i hm
+        split at h2
+        · rename_i g hg
+          simp only [Option.some.injEq, Prod.mk.injEq] at h2
+          obtain ⟨rfl, rfl, rfl⟩ := h2
+          simp only [emisStage, if_true] at h3
+          split at h3
+          · rename_i c hc
+            simp only [Option.some.injEq] at h3
+            obtain ⟨m1, m2, e⟩ := hi c st g hc hst hg
+            have hcur : g.vv = vv := m2 vv hm
+            by_cases hcn : c < n
+            · simp only [hcn, if_true] at h3
+              subst h3
+              rw [ok.emisExtend, instPhases_safe, List.nil_append]
+              have hi1 : Inv t { d with seeds := x } := hi
+              obtain ⟨c1, c2⟩ := extend_spec t { d with seeds := x } hi1 c n st g hc hst hg hcn
+              refine ⟨c1, ?_⟩
+              rw [c2]
+              refine ⟨rfl, rfl, ⟨st, hst, hm⟩, hg, ⟨n, rfl, Nat.le_refl _, ?_⟩, hcur⟩
+              intro i hin
+              by_cases hic : c ≤ i
+              · simp [hic, hin]
+              · have : ¬ (c ≤ i ∧ i < n) := by omega
+                simp only [this, if_false]
+                exact e i (by omega)
+            · simp only [hcn, if_false] at h3
+              subst h3
+              refine ⟨trivial, rfl, rfl, ⟨st, hst, hm⟩, hg, ⟨c, hc, by omega, e⟩, hcur⟩
+          · simp at h3
+        · simp at h2
+      · simp only [Option.some.injEq, Prod.mk.injEq] at h2
+        exact regen _ _ ok.sameHashed ok.regenOps h2.1.symm h2.2.1.symm h2.2.2.symm
+    · simp at h2
+
+theorem seeds_spec (t : Tbl) (n : Nat) (d : Disk) (s1 : List Step) (force : Bool)
+    (h : seedsStage n d = some (s1, force)) :
+    ∃ m, applyAll s1 d = { d with seeds := .ok m } ∧ n ≤ m ∧ ChainOk t d s1 := by
+  unfold seedsStage at h
+  split at h
+  · simp at h
+  · simp only [Option.some.injEq, Prod.mk.injEq] at h
+    obtain ⟨rfl, _⟩ := h
+    exact ⟨n, rfl, Nat.le_refl _, trivial, trivial⟩
+  · rename_i m hm
+    simp only [Option.some.injEq, Prod.mk.injEq] at h
+    obtain ⟨rfl, _⟩ := h
+    by_cases hmn : m < n
+    · simp only [hmn, if_true]
+      exact ⟨n, rfl, Nat.le_refl _, trivial, trivial⟩
+    · simp only [hmn, if_false]
+      refine ⟨m, ?_, by omega, trivial⟩
+      cases d
+      simp_all
+
+theorem infra_hfe_nil (t : Tbl) (vv : VV) (gid : Nat) (force : Bool) (d : Disk) (s2 : List Step)
+    (mem : Gen) (h : infraStage t vv gid force d = some (s2, mem, true)) : s2 = [] := by
+  unfold infraStage at h
+  split at h
+  · simp at h
+  · split at h
+    · split at h
+      · split at h
+        · simp only [Option.some.injEq, Prod.mk.injEq] at h
+          exact h.1.symm
+        · simp at h
+      · simp at h
+    · simp at h
+
+theorem plan_spec (t : Tbl) (ok : TblOK t) (vv : VV) (gid n : Nat) (d : Disk) (hi : Inv t d) :
+    ChainOk t d (plan t vv gid n d).steps ∧
+    ∀ g, (plan t vv gid n d).outcome = some g →
+      Valid t vv g n (applyAll (plan t vv gid n d).steps d) := by
+  cases h1 : seedsStage n d with
+  | none => simp only [plan, h1]; exact ⟨trivial, by simp⟩
+  | some r1 =>
+    obtain ⟨s1, force⟩ := r1
+    obtain ⟨m, e1, hm, c1⟩ := seeds_spec t n d s1 force h1
+    cases h2 : infraStage t vv gid force d with
+    | none => simp only [plan, h1, h2]; exact ⟨c1, by simp⟩
+    | some r2 =>
+      obtain ⟨s2, mem, hfe⟩ := r2
+      cases h3 : emisStage t n hfe mem d with
+      | none =>
+        have : hfe = true := by
+          cases hfe with
+          | true => rfl
+          | false => simp [emisStage] at h3
+        subst this
+        have := infra_hfe_nil t vv gid force d s2 mem h2
+        subst this
+        simp only [plan, h1, h2, h3, List.append_nil]
+        exact ⟨c1, by simp⟩
+      | some s3 =>
+        obtain ⟨m1, m2, m3, m4, m5, m6, m7⟩ :=
+          mid_spec t ok vv gid n force d (.ok m) hi s2 mem hfe s3 h2 h3
+        have c123 : ChainOk t d (s1 ++ s2 ++ s3) := by
+          rw [List.append_assoc, chain_append, e1]
+          exact ⟨c1, m1⟩
+        have e123 : applyAll (s1 ++ s2 ++ s3) d =
+            applyAll (s2 ++ s3) { d with seeds := .ok m } := by
+          rw [List.append_assoc, applyAll_append, e1]
+        cases h4 : tsStage d with
+        | none => simp only [plan, h1, h2, h3, h4]; exact ⟨c123, by simp⟩
+        | some s4 =>
+          simp only [plan, h1, h2, h3, h4]
+          unfold tsStage at h4
+          split at h4
+          · simp at h4
+          · rename_i u hu
+            simp only [Option.some.injEq] at h4
+            subst h4
+            simp only [List.append_nil, Option.some.injEq]
+            refine ⟨c123, ?_⟩
+            intro g hg
+            subst hg
+            rw [e123]
+            exact ⟨⟨m, m2, hm⟩, m4, m5, m6, by rw [m3]; exact hu, m7⟩
+          · rename_i hu
+            simp only [Option.some.injEq] at h4
+            subst h4
+            simp only [Option.some.injEq]
+            refine ⟨?_, ?_⟩
+            · rw [chain_append]
+              exact ⟨c123, trivial, trivial⟩
+            · intro g hg
+              subst hg
+              rw [applyAll_append, e123]
+              exact ⟨⟨m, m2, hm⟩, m4, m5, m6, rfl, m7⟩
+
 end LdarModel.Cache
